@@ -203,6 +203,7 @@ def make_reactor(kind, kern, now):
 
         loop = asyncio.SelectorEventLoop(FakeSelector(kern))
         loop.time = now
+        loop.set_exception_handler(lambda loop, context: None)   # oracle failures are remembered by Sim; keep stderr quiet
         r = asyncioreactor.AsyncioSelectorReactor(loop)
         r._verif_loop = loop
         r._verif_restore = lambda: None
